@@ -1138,6 +1138,9 @@ func (e *Engine) makeInterface(fr *Frame, st *State, src ssa.Value, v Val) Val {
 	case kBool:
 		return Val{Fs: []Val{{T: tag}, {T: Ite(v.T, IntLit(1), IntLit(0))}}}
 	case kSeq:
+		if v.T == nil || v.T.sort != SSeq {
+			unsupp("boxing a %s whose value is not a sequence term (%v) at %s", t, v.T, e.pos(src.(ssa.Instruction)))
+		}
 		return Val{Fs: []Val{{T: tag}, {T: App("box_seq", SInt, v.T)}}}
 	case kIface:
 		return v
@@ -1225,8 +1228,66 @@ func mapKeySort(mt *types.Map) (string, bool) {
 		return SBool, true
 	case kSeq:
 		return SSeq, true
+	case kStruct:
+		// a struct of scalar / string fields: the key is the term skey$T(fields...), an injective constructor
+		if _, ok := structKeyFields(mt.Key()); ok {
+			return SInt, true
+		}
 	}
 	return "", false
+}
+
+// structKeyTypes: struct types used as map keys in this run (their constructors get injectivity axioms, verify.go)
+var structKeyTypes = map[string]types.Type{}
+
+func structKeyFields(t types.Type) ([]string, bool) {
+	stt, ok := t.Underlying().(*types.Struct)
+	if !ok || stt.NumFields() == 0 {
+		return nil, false
+	}
+	var sorts []string
+	for i := 0; i < stt.NumFields(); i++ {
+		switch kindOf(stt.Field(i).Type()) {
+		case kInt, kRef:
+			sorts = append(sorts, SInt)
+		case kBool:
+			sorts = append(sorts, SBool)
+		case kSeq:
+			sorts = append(sorts, SSeq)
+		default:
+			return nil, false
+		}
+	}
+	return sorts, true
+}
+
+// mapKey turns a key value into the term the map model is indexed with.
+func mapKey(mt *types.Map, v Val) *Term {
+	if kindOf(mt.Key()) != kStruct {
+		return v.T
+	}
+	name := typeKey(mt.Key())
+	structKeyTypes[name] = mt.Key()
+	var ts []*Term
+	for _, f := range v.Fs {
+		ts = append(ts, f.T)
+	}
+	return App("skey$"+name, SInt, ts...)
+}
+
+// mapKeyVal is the inverse for keys handed out by a range loop: the fields are the projections of the key term.
+func mapKeyVal(mt *types.Map, k *Term) Val {
+	if kindOf(mt.Key()) != kStruct {
+		return Val{T: k}
+	}
+	name := typeKey(mt.Key())
+	structKeyTypes[name] = mt.Key()
+	sorts, _ := structKeyFields(mt.Key())
+	out := Val{}
+	for i, srt := range sorts {
+		out.Fs = append(out.Fs, Val{T: App(fmt.Sprintf("skey$%s$%d", name, i), srt, k)})
+	}
+	return out
 }
 
 func (e *Engine) mapInit(st *State, t types.Type, mt *types.Map, r *Term) {
@@ -1271,7 +1332,7 @@ func (e *Engine) mapUpdate(fr *Frame, st *State, x *ssa.MapUpdate) {
 		e.note("map with unsupported key type " + mt.Key().String() + ": update ignored, lookups arbitrary")
 		return
 	}
-	k := e.val(fr, st, x.Key).T
+	k := mapKey(mt, e.val(fr, st, x.Key))
 	raw := e.val(fr, st, x.Value)
 	if raw.Clo != nil {
 		if st.mapClos == nil {
@@ -1327,7 +1388,7 @@ func (e *Engine) lookup(fr *Frame, st *State, x *ssa.Lookup) Val {
 			}
 			return v
 		}
-		k := e.val(fr, st, x.Index).T
+		k := mapKey(mt, e.val(fr, st, x.Index))
 		has := And(Ne(m, IntLit(0)), Select(e.mapDom(st, mt, m), k))
 		v := e.mapGet(st, mt, m, k)
 		r := iteVal(has, v, zeroVal(mt.Elem()))
@@ -1402,7 +1463,11 @@ func (e *Engine) rangeNext(fr *Frame, st *State, x *ssa.Next) Val {
 		Eq(nv, e.mapCard(st, mt, it.m))))
 	st.assume(Implies(And(Not(ok), Eq(it.m, IntLit(0))), Eq(nv, IntLit(0))))
 	st.cells[it.ncell] = scalar(Ite(ok, Add(nv, IntLit(1)), nv))
-	kv := Val{T: k}
+	kv := mapKeyVal(mt, k)
+	if kindOf(mt.Key()) == kStruct {
+		// the key handed out is the constructor applied to its own projections
+		st.assume(Eq(k, mapKey(mt, kv)))
+	}
 	if kindOf(mt.Key()) == kInt {
 		st.intFact(k, mt.Key())
 	}
